@@ -11,7 +11,9 @@ from ..core import CRASH
 
 ID = "C08"
 LEVEL = "exploration"
-RULE = ("(a) column-exact: every line made of <=2 (thorough 3) container segments (marker in >, ' >', '   >', -, 1., "
+RULE = ("(a2) two-line indented code blocks whose second line re-enters the same quote/list containers with every "
+        "spelling of every blank run (depth 1 fully, depth 2 with one of the two lines in canonical spelling); "
+        "(a) column-exact: every line made of <=2 (thorough 3) container segments (marker in >, ' >', '   >', -, 1., "
         "' -', 10)) x every blank run over 11 space/tab spellings x payloads, expected content from an independent "
         "CommonMark column model; (b) every code_block/fence/html_block token of the contextual and free line-shape "
         "documents: each content line is a suffix-preserving image of its source line, removed head is blanks and "
@@ -99,6 +101,90 @@ def col_case(md, line, origin, pc, payload, acc):
         if inl[0].content != payload.strip():
             return f"paragraph content {inl[0].content!r} != {payload.strip()!r}"
     return None
+
+
+# ---- (a2) two-line code blocks: the second line re-enters the same containers with its own spelling -------------
+def build_segs(depth, marks, wss):
+    """like build(), but also returns the container structure: list of ('q'|'l', width) per segment"""
+    def rec(prefix, origin, d, segs):
+        if d == 0:
+            yield prefix, origin, segs
+            return
+        for mk in marks:
+            for ws in wss:
+                ind = len(mk) - len(mk.lstrip(" "))
+                pc = cols(prefix)
+                lead = (pc - origin) + ind
+                if lead > 3 or (prefix and ind):
+                    continue
+                mend = cols(prefix + mk)
+                total = cols(prefix + mk + ws)
+                w = total - mend
+                if mk.strip() == ">":
+                    yield from rec(prefix + mk + ws, mend + 1, d - 1, segs + [("q", 0)])
+                else:
+                    org = total if 1 <= w <= 4 else mend + 1
+                    yield from rec(prefix + mk + ws, org, d - 1, segs + [("l", org - origin)])
+
+    yield from rec("", 0, depth, [])
+
+
+def blank_spellings(c, k):
+    """all spellings with spaces and tabs of a blank run that starts at column c and ends exactly at column c+k"""
+    if k == 0:
+        yield ""
+        return
+    for r in blank_spellings(c + 1, k - 1):
+        yield " " + r
+    nxt = c + (4 - c % 4)
+    if nxt <= c + k:
+        for r in blank_spellings(nxt, c + k - nxt):
+            yield "\t" + r
+
+
+def second_lines(segs, quote_indents=(0, 1, 3), extra=(4, 5, 7), canonical=False):
+    """every spelling of a second line that continues the containers `segs` and then an indented code line;
+    yields (line, code_origin) where the code content is the line from column code_origin on"""
+    def rec(i, prefix, pc, need):
+        if i == len(segs):
+            for e in extra:
+                width = need + e - pc
+                if width < 0:
+                    continue
+                for sp in ([" " * width] if canonical else blank_spellings(pc, width)):
+                    yield prefix + sp + "y", need + 4
+            return
+        kind, w = segs[i]
+        if kind == "l":
+            yield from rec(i + 1, prefix, pc, need + w)
+            return
+        for qi in quote_indents:
+            c = need + qi
+            if c < pc:
+                continue
+            for sp in ([" " * (c - pc)] if canonical else blank_spellings(pc, c - pc)):
+                yield from rec(i + 1, prefix + sp + ">", c + 1, c + 2)
+
+    yield from rec(0, "", 0, 0)
+
+
+def col2_case(md, l1, o1, l2, o2, acc):
+    src = l1 + "\n" + l2 + "\n"
+    toks = acc.call(md.parse, src)
+    if toks is CRASH:
+        return None
+    cb = [t for t in toks if t.type == "code_block"]
+    exp = strip_cols(l1, o1) + "\n" + strip_cols(l2, o2) + "\n"
+    if len(cb) != 1:
+        return "expected one two-line indented code block"
+    acc.sig(("code2", cb[0].content, src))
+    if cb[0].content != exp:
+        return f"code content {cb[0].content!r} != column model {exp!r}"
+    return None
+
+
+MARK2 = [">", " >", "-", "1."]
+WS_CANON = [" ", "    ", "     "]
 
 
 # ---- (b) verbatim tokens vs their source lines ---------------------------------------------------------
@@ -293,6 +379,12 @@ def shards(tier):
     for mk in MARK:
         for d in ((1, 2, 3) if th else (1, 2)):
             sh.append(("col", mk, d))
+    for mk in MARK2:
+        sh.append(("col2", mk, 1, "full"))
+        sh.append(("col2", mk, 2, "first-canonical"))
+        sh.append(("col2", mk, 2, "second-canonical"))
+        if th:
+            sh.append(("col2", mk, 3, "first-canonical"))
     for f in BT_ATOMS:
         sh.append(("bt", f, 6 if th else 5))
     sh += I.block_shards(tier, CFGS, contexts=S.CONTEXTS if th else S.CONTEXTS[:4])
@@ -336,6 +428,23 @@ def run_shard(sh, acc):
                         acc.violation(kind, re.sub(r"'[^']*'", "_", r)[:50],
                                       {"cfg": c, "line": line, "origin": origin, "pc": pc, "payload": pl}, r)
         acc.sample(kind, {"line": mk + " \tx", "depth": d}, 1)
+    elif kind == "col2":
+        _, mk, d, mode = sh
+        c = CFGS[0]
+        md = C.build(c)
+        n = 0
+        wss1 = WS_CANON if mode == "first-canonical" else WS
+        for prefix, origin, segs in build_segs(d, MARK2, wss1):
+            if not prefix.startswith(mk) or cols(prefix) - origin < 4:
+                continue
+            l1 = prefix + "x"
+            for l2, o2 in second_lines(segs, canonical=(mode == "second-canonical")):
+                acc.case()
+                n += 1
+                r = col2_case(md, l1, origin + 4, l2, o2, acc)
+                if r:
+                    acc.violation(kind, re.sub(r"'[^']*'", "_", r)[:50], {"cfg": c, "l1": l1, "o1": origin + 4, "l2": l2, "o2": o2}, r)
+        acc.sample(kind, {"l1": ">\t\tx", "l2": " >\t\ty", "mode": mode, "depth": d}, 1)
     elif kind == "bt":
         _, f, L = sh
         md = C.build(CFGS[0])
@@ -369,6 +478,11 @@ def check_case(case, acc):
     if sub == "col":
         md = C.build(case["cfg"], fresh=True)
         r = col_case(md, case["line"], case["origin"], case["pc"], case["payload"], acc)
+        if r:
+            acc.violation(sub, re.sub(r"'[^']*'", "_", r)[:50], {k: v for k, v in case.items() if k != "sub"}, r)
+    elif sub == "col2":
+        md = C.build(case["cfg"], fresh=True)
+        r = col2_case(md, case["l1"], case["o1"], case["l2"], case["o2"], acc)
         if r:
             acc.violation(sub, re.sub(r"'[^']*'", "_", r)[:50], {k: v for k, v in case.items() if k != "sub"}, r)
     elif sub == "bt":
